@@ -6,6 +6,8 @@ Inductive mode := MR | MW.
 Definition held := list (string * mode).
 Inductive akind := KRead | KWrite | KCRead | KCWrite.
 Inductive ctx := CxCallback | CxPick | CxDone | CxApp | CxTimer | CxMonitor | CxClosure.
+(* operation of an access made through sync/atomic (OpPlain: not through sync/atomic) *)
+Inductive aop := OpPlain | OpLoad | OpStore | OpStore0 (* Store of the constant 0 *) | OpAdd | OpCAS | OpSwap | OpOther.
 Inductive bkind := BChanRecv | BChanSend | BSelect | BCondWait | BSleep | BWait | BExtCall.
 
 (* one read/write of a field of a tracked struct *)
@@ -18,7 +20,21 @@ Record site := mkSite {
   s_must : held;            (* locks certainly held (intersection over paths and call sites) *)
   s_may : held;             (* locks possibly held *)
   s_released : list string; (* locks certainly acquired and released earlier in the same function *)
-  s_ctxs : list ctx         (* entry-point contexts that reach the function *)
+  s_ctxs : list ctx;        (* entry-point contexts that reach the function *)
+  s_op : aop                (* sync/atomic operation *)
+}.
+
+(* one access as executed within ONE execution of a root function (its body and, context-sensitively, its
+   callees): which critical-section instances are open there.  A section instance is named by the
+   acquisition site "file:line" ("+" appended when a section opened at that site may already have been
+   completed earlier in the same execution, e.g. a lock taken inside a loop). *)
+Record srow := mkSrow {
+  r_root : string;          (* the function whose execution this is *)
+  r_file : string; r_line : nat; r_func : string;
+  r_type : string; r_field : string;
+  r_kind : akind; r_op : aop;
+  r_must : held;            (* locks certainly held *)
+  r_sec : list (string * list string)   (* lock -> section instances possibly open (empty: none) *)
 }.
 
 (* one lock acquisition *)
@@ -48,3 +64,16 @@ Definition holds (h : held) (l : string) (need_w : bool) : bool :=
   existsb (fun p => String.eqb l (fst p) && (if need_w then mode_eqb (snd p) MW else true)) h.
 
 Definition mem_str (x : string) (l : list string) : bool := existsb (String.eqb x) l.
+
+Definition aop_eqb (a b : aop) : bool :=
+  match a, b with
+  | OpPlain, OpPlain | OpLoad, OpLoad | OpStore, OpStore | OpStore0, OpStore0 | OpAdd, OpAdd
+  | OpCAS, OpCAS | OpSwap, OpSwap | OpOther, OpOther => true
+  | _, _ => false
+  end.
+
+Fixpoint sec_of (l : string) (sec : list (string * list string)) : list string :=
+  match sec with
+  | [] => []
+  | (l', ids) :: r => if String.eqb l l' then ids else sec_of l r
+  end.
